@@ -2,11 +2,14 @@
 import re
 
 from . import cfg, flow, query
-from .facts import op_place
+from .facts import op_place, norm_path
 
 INT_TYPES = {"i8", "i16", "i32", "i64", "i128", "isize", "u8", "u16", "u32", "u64", "u128", "usize"}
-SANITIZERS = re.compile(r"::(checked_\w+|saturating_\w+|wrapping_\w+|overflowing_\w+|min|max|clamp|rem_euclid|abs_diff|"
-                        r"unsigned_abs|count_ones|leading_zeros|trailing_zeros|signum|is_\w+)$")
+# calls whose result is no longer template-*chosen*: it is bounded by something else.  A checked / saturating /
+# wrapping operation is safe itself, but what it returns is as template-controlled as its operands (`len
+# .saturating_sub(idx) - 1` underflows), so those keep the taint (CARRIERS).
+SANITIZERS = re.compile(r"::(min|clamp|rem_euclid|count_ones|leading_zeros|trailing_zeros|signum|is_\w+)$")
+CARRIERS = re.compile(r"::(checked_\w+|saturating_\w+|wrapping_\w+|overflowing_\w+|max|abs_diff|unsigned_abs)$")
 VALUE_INT_SOURCES = (
     "minijinja::value::Value::as_usize", "minijinja::value::Value::as_i64", "minijinja::value::Value::len",
     "minijinja::value::object::DynObject::enumerator_len", "minijinja::value::Kwargs::get",
@@ -27,7 +30,7 @@ def _is_int_ty(t):
     return bool(m and m.group(1) in INT_TYPES)
 
 
-def sources(fn):
+def sources(fn, size=False, _depth=0):
     """locals that carry a template-controlled integer at their definition: {local: description}"""
     src = {}
     if fn.loc.f.endswith(BUILTIN_FILES) and fn.kind != "closure":
@@ -51,13 +54,92 @@ def sources(fn):
             src[c.dest["l"]] = "number of call arguments (`args.len()`)"
         elif n.endswith("ArgType<'a>>::from_value") and re.search(r"Result<(?:core::option::Option<)?(%s)" % "|".join(INT_TYPES), dt):
             src[c.dest["l"]] = "argument conversion"
+        elif n.endswith("::load") and "core::sync::atomic::Atomic" in n and fn.loc.f.endswith("vm/loop_object.rs"):
+            src[c.dest["l"]] = "loop counter"
+        elif n == "minijinja::value::ops::coerce" and fn.loc.f.endswith(BUILTIN_FILES) and not fn.loc.f.endswith("value/ops.rs"):
+            # the integer payloads of a coerced pair of template values (ops.rs itself uses checked operations on them
+            # and is covered by the C08 rules)
+            src[c.dest["l"]] = "integers coerced from template values"
+    # the loop object's own counters (length of the iterable, depth) are as template-controlled as its index
+    if fn.loc.f.endswith("vm/loop_object.rs") and fn.kind != "closure":
+        for bb, i, s_ in fn.all_stmts():
+            if s_["k"] != "assign" or "p" in s_["place"]:
+                continue
+            rv = s_["rv"]
+            if rv["k"] not in ("use", "cast") or "c" in rv["op"]:
+                continue
+            pl = op_place(rv["op"])
+            if pl is None or not pl.get("p"):
+                continue
+            last = pl["p"][-1]
+            if isinstance(last, dict) and "n" in last and str(last.get("of", "")).endswith("loop_object::Loop") \
+                    and _is_int_ty({"s": last.get("ty", "")}):
+                src[s_["place"]["l"]] = "loop object field `%s`" % last["n"]
+    # a closure sees the template-controlled integers its builder captured
+    if fn.kind == "closure" and fn.parent and fn.prog is not None and fn.prog.fns.get(fn.parent) is not None and _depth < 3:
+        host = fn.prog.fns[fn.parent]
+        ht = tainted_locals(host, size=size, _depth=_depth + 1)
+        caps = []
+        for bb, i, s_ in host.all_stmts():
+            rv = s_.get("rv")
+            if rv and rv["k"] == "agg" and rv.get("closure") and norm_path(rv["closure"]) == fn.path:
+                caps = rv["ops"]
+        tainted_caps = {}
+        for i, o in enumerate(caps):
+            p = op_place(o)
+            if p is not None and p["l"] in ht:
+                tainted_caps[i] = ht[p["l"]]
+            elif p is not None:
+                # captured by reference: `&n`
+                for d in flow.whole_defs(host, p["l"]):
+                    if d.kind == "stmt" and d.rv["k"] == "ref" and d.rv["place"]["l"] in ht:
+                        tainted_caps[i] = ht[d.rv["place"]["l"]]
+        # the closure's parameters: the payload of the tainted receiver of the combinator the closure is passed to
+        for c in host.calls():
+            if not c.name.startswith("core::") or len(c.args) < 2:
+                continue
+            passed = any(o.kind == "agg" and o.rv.get("closure") and norm_path(o.rv["closure"]) == fn.path
+                         for a in c.args[1:] if "c" not in a for o in flow.origins(host, a))
+            if not passed:
+                continue
+            p0 = op_place(c.args[0])
+            if p0 is not None and p0["l"] in ht:
+                for l in range(2, fn.argc + 1):
+                    if _is_int_ty(fn.locals[l]) or "(" in fn.locals[l].get("s", ""):
+                        src[l] = ht[p0["l"]] + " (combinator payload)"
+        if tainted_caps:
+            for bb, i, s_ in fn.all_stmts():
+                if s_["k"] != "assign" or "p" in s_["place"]:
+                    continue
+                rv = s_["rv"]
+                pl = None
+                if rv["k"] in ("use", "cast") and "c" not in rv["op"]:
+                    pl = op_place(rv["op"])
+                elif rv["k"] == "ref":
+                    pl = rv["place"]
+                if pl is None or pl["l"] != 1:
+                    continue
+                for e in pl.get("p", []):
+                    if isinstance(e, dict) and "f" in e and e["f"] in tainted_caps:
+                        src[s_["place"]["l"]] = tainted_caps[e["f"]] + " (captured)"
+                        break
     # fields of Span / tokenizer counters
     return src
 
 
-def tainted_locals(fn):
-    """forward propagation: local -> source description (first reaching)"""
-    t = dict(sources(fn))
+SIZE_SANITIZERS = re.compile(r"::(min|clamp|count_ones|leading_zeros|trailing_zeros|signum|is_\w+)$")
+
+
+def tainted_locals(fn, size=False, _depth=0):
+    """forward propagation: local -> source description (first reaching).  `size=True`: the value is used as a size;
+    checked / saturating / wrapping arithmetic keeps it template-controlled, only a clamp bounds it."""
+    cache = getattr(fn, "_taint_cache", None)
+    if cache is None:
+        cache = fn._taint_cache = {}
+    if size in cache:
+        return cache[size]
+    t = dict(sources(fn, size=size, _depth=_depth))
+    sanit = SIZE_SANITIZERS if size else SANITIZERS
     changed = True
     calls = fn.calls()
     guard = 0
@@ -85,7 +167,7 @@ def tainted_locals(fn):
                 p = op_place(rv["a"])
                 if p is not None:
                     srcs.append(p["l"])
-            elif rv["k"] == "agg" and (rv.get("agg") in ("tuple",) or rv.get("adt") in ("core::option::Option", "core::result::Result")):
+            elif rv["k"] == "agg" and (rv.get("agg") in ("tuple",) or rv.get("closure") or rv.get("adt") in ("core::option::Option", "core::result::Result")):
                 for o in rv["ops"]:
                     p = op_place(o)
                     if p is not None:
@@ -99,18 +181,28 @@ def tainted_locals(fn):
         for c in calls:
             if c.dest is None or "p" in c.dest or c.dest["l"] in t:
                 continue
-            if SANITIZERS.search(c.name):
+            if sanit.search(c.name):
+                continue
+            if CARRIERS.search(c.name) or re.search(r"^core::(option::Option|result::Result)::(map|map_or|map_or_else|and_then|filter|"
+                                                    r"unwrap_or_else|or_else|zip|xor|or|and)$", c.name):
+                for a in c.args[:3]:
+                    p = op_place(a)
+                    if p is not None and p["l"] in t and c.dest["l"] not in t:
+                        t[c.dest["l"]] = t[p["l"]]
+                        changed = True
                 continue
             # pass-through calls: unwrap / Try::branch / Into / clone keep taint
             if c.name.endswith("Try>::branch") or c.name.endswith("::unwrap") or c.name.endswith("::unwrap_or") \
                     or c.name.endswith("::into") or c.name.endswith("::from") or c.name.endswith("::clone") \
                     or c.name.endswith("::unwrap_or_default") or c.name.endswith("::expect") or c.name.endswith("::abs") \
-                    or c.name.endswith("::pow") or c.name.endswith("::deref"):
+                    or c.name.endswith("::pow") or c.name.endswith("::deref") or c.name.endswith("::ok_or_else") \
+                    or c.name.endswith("::ok_or") or c.name.endswith("Result::ok") or c.name.endswith("::map_err"):
                 for a in c.args[:1]:
                     p = op_place(a)
                     if p is not None and p["l"] in t:
                         t[c.dest["l"]] = t[p["l"]]
                         changed = True
+    cache[size] = t
     return t
 
 
@@ -240,7 +332,7 @@ ALLOC_SINKS = {
 
 def alloc_hazards(fn):
     """[(bb, callee, description)] allocation sizes taken from a template-controlled integer"""
-    t = tainted_locals(fn)
+    t = tainted_locals(fn, size=True)
     out = []
     if not t:
         return out
@@ -303,8 +395,17 @@ def constant_bound_guards(fn, bb, local):
             a, b = cd.rv["a"], cd.rv["b"]
             for x, y in ((a, b), (b, a)):
                 if "c" in y and "c" not in x:
-                    if {(o.kind, o.bb, o.arg, o.idx) for o in flow.origins(fn, x)} & roots:
+                    xo = flow.origins(fn, x)
+                    if {(o.kind, o.bb, o.arg, o.idx) for o in xo} & roots:
                         out.append((sb, cd.rv["op"], y["c"].get("named") or y["c"].get("int")))
+                        continue
+                    # a bound on a checked product / sum of the value bounds the value (where the other operand is
+                    # zero nothing is allocated or iterated)
+                    for o in xo:
+                        if o.kind == "call" and re.search(r"::(checked_mul|checked_add|saturating_mul|saturating_add)$", o.call.name):
+                            if any({(q.kind, q.bb, q.arg, q.idx) for q in flow.origins(fn, a_)} & roots for a_ in o.call.args if "c" not in a_):
+                                out.append((sb, cd.rv["op"], y["c"].get("named") or y["c"].get("int")))
+                                break
     return out
 
 
@@ -380,3 +481,134 @@ def bounded_by_constant(fn, bb, end):
                     if lx and lx <= leaves or (leaves and leaves <= lx):
                         return "%s %s" % (cd.rv["op"], y["c"].get("named") or y["c"].get("int"))
     return None
+
+
+
+def _wide_roots(fn, op, depth=0):
+    """origin keys of a value, looking through `max` / `min` / casts and - one level - through calls that compute an
+    integer from integer arguments (`random_range(min, max)`): a bound on every argument bounds the result"""
+    out = set()
+    for o in flow.origins(fn, op):
+        if o.kind == "call" and depth < 2 and (re.search(r"::(max|min)$", o.call.name) or (
+                o.call.args and all("c" in a or _is_int_ty(fn.locals[op_place(a)["l"]]) or fn.locals[op_place(a)["l"]].get("s", "").startswith("&mut ")
+                                    for a in o.call.args if "c" in a or op_place(a) is not None))):
+            sub = set()
+            for a in o.call.args:
+                if "c" not in a and op_place(a) is not None and _is_int_ty(fn.locals[op_place(a)["l"]]):
+                    sub |= _wide_roots(fn, a, depth + 1)
+            if sub:
+                out |= sub
+                continue
+        if o.kind == "bin" and depth < 2:
+            for side in ("a", "b"):
+                if "c" not in o.rv[side]:
+                    out |= _wide_roots(fn, o.rv[side], depth + 1)
+            continue
+        out.add((o.kind, o.bb, o.arg, o.idx))
+    return out
+
+
+def bounded_on_all_paths(fn, sink_bb, local):
+    """every path from the entry to `sink_bb` takes the bounded side of a comparison of (a value sharing roots with, or
+    a checked product / sum of) `local` with a constant.  Path-sensitive over `matches!`-style booleans, so it also
+    sees `if !matches!(a.checked_mul(n), Some(len) if len <= MAX) { return Err }`."""
+    roots = _wide_roots(fn, local) if not isinstance(local, int) else _wide_roots(fn, {"cp": {"l": local}})
+    evid = set()
+    for sb in sorted(fn.reachable):
+        t = fn.term(sb)
+        if t["k"] != "switch":
+            continue
+        cd = flow.cond_of(fn, sb)
+        if cd.kind != "bin" or cd.rv["op"] not in ("Lt", "Le", "Gt", "Ge"):
+            continue
+        a, b = cd.rv["a"], cd.rv["b"]
+        for x, y, swapped in ((a, b, False), (b, a, True)):
+            if "c" not in y or "c" in x:
+                continue
+            xo = flow.origins(fn, x)
+            rel = bool({(o.kind, o.bb, o.arg, o.idx) for o in xo} & roots)
+            if not rel:
+                for o in xo:
+                    if o.kind == "call" and re.search(r"::(checked_mul|checked_add|saturating_mul|saturating_add)$", o.call.name):
+                        covered = set()
+                        for a_ in o.call.args:
+                            if "c" not in a_:
+                                covered |= _wide_roots(fn, a_)
+                        # every root of the value takes part in the bounded product / sum
+                        if roots and roots <= covered:
+                            rel = True
+            if not rel:
+                continue
+            # `x OP const` (or `const OP x` when swapped): on which side is x bounded above?
+            op = cd.rv["op"]
+            upper_when_true = (op in ("Lt", "Le")) != swapped
+            for e in cfg.bool_edges(fn, sb, upper_when_true != cd.neg):
+                evid.add(e)
+    if not evid:
+        return False
+    reach, _ = cfg.reach_with_bool_phis(fn, evid)
+    return sink_bb not in reach
+
+
+
+TYPE_MAX = {"u8": 2 ** 8 - 1, "u16": 2 ** 16 - 1, "u32": 2 ** 32 - 1, "u64": 2 ** 64 - 1, "usize": 2 ** 64 - 1,
+            "u128": 2 ** 128 - 1, "i8": 2 ** 7 - 1, "i16": 2 ** 15 - 1, "i32": 2 ** 31 - 1, "i64": 2 ** 63 - 1,
+            "isize": 2 ** 63 - 1, "i128": 2 ** 127 - 1}
+
+
+def constant_divisor(fn, term):
+    """`x / c`, `x % c` with a literal c: c != 0 for the by-zero assert, c != -1 for the MIN / -1 overflow assert"""
+    from .facts import const_int
+    kind = term["kind"]
+    if kind.startswith(("DivisionByZero", "RemainderByZero")):
+        d = divisor_of(fn, term)
+        if d is None:
+            # the condition was folded away: the assert's condition is a constant
+            c = term.get("cond", {})
+            return "c" in c
+        v = const_int(d) if "c" in d else None
+        return v is not None and v != 0
+    if kind.startswith(("Overflow:Div", "Overflow:Rem")) and len(term.get("ops", [])) == 2:
+        d = term["ops"][1]
+        v = const_int(d) if "c" in d else None
+        return v is not None and v != -1
+    return False
+
+
+def below_max_guard(fn, bb, term):
+    """`x + 1` where a dominating test excluded the type's maximum for x (`if idx == !0 { return }`)"""
+    from .facts import const_int
+    if not term["kind"].startswith("Overflow:Add") or len(term.get("ops", [])) != 2:
+        return False
+    a, b = term["ops"]
+    for x, k in ((a, b), (b, a)):
+        if "c" in x or "c" not in k or const_int(k) != 1:
+            continue
+        roots = {o.key() for o in flow.origins(fn, x)}
+        for (sb, taken) in flow.guards(fn, bb):
+            cd = flow.cond_of(fn, sb)
+            side = flow.bool_true_labels(taken)
+            if side is None or cd.kind != "bin" or cd.rv["op"] not in ("Eq", "Ne"):
+                continue
+            truth = side != cd.neg
+            for u, v in ((cd.rv["a"], cd.rv["b"]), (cd.rv["b"], cd.rv["a"])):
+                if "c" in u:
+                    continue
+                if "c" in v:
+                    vv = const_int(v)
+                else:
+                    # `!0`: Not applied to the literal 0
+                    vo = flow.origins(fn, v)
+                    vv = None
+                    if len(vo) == 1 and vo[0].kind == "un" and vo[0].rv.get("op") == "Not" and "c" in vo[0].rv["a"] \
+                            and const_int(vo[0].rv["a"]) == 0:
+                        vv = TYPE_MAX.get(cd.rv.get("ty"))
+                    elif len(vo) == 1 and vo[0].kind == "const":
+                        vv = const_int({"c": vo[0].const})
+                if vv is None or vv != TYPE_MAX.get(cd.rv.get("ty")):
+                    continue
+                if not ({o.key() for o in flow.origins(fn, u)} & roots):
+                    continue
+                if (cd.rv["op"] == "Eq" and not truth) or (cd.rv["op"] == "Ne" and truth):
+                    return True
+    return False
